@@ -123,6 +123,7 @@ def evaluate(ctx, p, res, base, replay, truth_ir, via):
     for kind, target_path, target_pre, is_extra in targets:
         tb = dict(base, target_kind=kind, target_pre=target_pre, target_is_second_file_of_truth_kind=is_extra,
                   target_func_before=p.features.get(kind + "_func_before", False),
+                  target_param_named_like_target_before=p.features.get(("extra" if is_extra else kind) + "_param_named_like_target_before", False),
                   target_is_method=p.method and kind == "function",
                   kind=KIND2[kind])
         ir, problem = parse_target(kind, target_path, p.names[kind])
@@ -163,7 +164,8 @@ def one(ctx, cfg, rich, wild, via, tmproot, with_return=False, key=0):
         wild = wild or with_return  # return entries: judged by the differential oracle only
         truth_ir, problem = parse_target(p.truth, p.files[p.truth], p.names[p.truth])
         base = {"op": OP, "truth": p.truth, "method": p.method, "n_kinds": len(cfg["kinds"]), "rich": rich, "wild": wild, "via": via, "with_return": with_return,
-                "pre_states": sorted(set(cfg["pre"].values())), "truth_func_before": p.features.get(p.truth + "_func_before", False)}
+                "pre_states": sorted(set(cfg["pre"].values())), "truth_func_before": p.features.get(p.truth + "_func_before", False),
+                "some_file_has_param_named_like_target": p.features.get("some_file_has_param_named_like_target", False)}
         replay = {"cfg": {k: (list(v) if isinstance(v, tuple) else v) for k, v in cfg.items()}, "rich": rich, "wild": wild0, "via": via,
                   "with_return": with_return, "key": key, "seed": ctx.seed, "tier": ctx.tier,
                   "files": {os.path.basename(f): (open(f).read() if os.path.exists(f) else None) for f in list(p.files.values()) + [e["path"] for e in p.extra]}}
